@@ -13,22 +13,25 @@ EXPECT = {  # seed -> check expected to report it (DESIGN 10.5)
     "C09": "C09", "C09.2": "C04", "C10": "C10", "C10.2": "C10", "C11": "C11", "C11.2": "C11", "C12": "C12", "C12.2": "C12",
     "C13": "C13", "C13.2": "C04", "C14": "C14", "C14.2": "C14", "C15": "C15", "C15.2": "C15", "C16": "C16", "C16.2": "C16",
     "C17": "C17", "C17.2": "C06",
+    "C01.3": "C01", "C03.3": "C03", "C04.3": "C07", "C08.3": "C13", "C13.3": "C13", "C14.3": "C14",
 }
 BENIGN = {  # benign mutant -> checks that must stay silent
     "C13-benign-drop-redundant-len": ["C13"], "C01-benign-chain-refactor": ["C01"], "C02-benign-drop-redundant-highbit": ["C02", "C17"],
     "benign-naf-rename": ["C04", "C10"], "benign-u64-reduce-loops": ["C01", "C11"], "benign-strict-helper": ["C09"],
     "benign-C08-raw-sign-refactor": ["C08"], "benign-C06-step2-locals": ["C06", "C03"], "benign-C17-from-repr-vartime": ["C17"],
     "benign-C13-rename-reorder": ["C13"], "benign-C16-scalar-visitor": ["C16"], "benign-C03-step1": ["C03", "C06"],
-    "C04-benign-mulbase-pow2": ["C04"], "benign-C07-ladder-while-let": ["C07"],
+    "C04-benign-mulbase-pow2": ["C04"], "benign-C07-ladder-while-let": ["C07"], "benign-C10-select-enumerate": ["C10", "C11"],
+    "benign-C13-explicit-loops": ["C13"], "benign-C03-double-reassoc": ["C03"], "benign-C07-ladder-step-commute": ["C07"], "benign-C06-decode-reassoc": ["C06"],
 }
+WORKERS = 4
 
 
 def sh(*a, **k):
     return subprocess.run(a, text=True, capture_output=True, **k)
 
 
-def run_check(pid):
-    env = dict(os.environ, VERIF_REPO=WT, VERIF_CACHE=CACHE)
+def run_check(pid, wt=WT, cache=CACHE):
+    env = dict(os.environ, VERIF_REPO=wt, VERIF_CACHE=cache, VERIF_EVIDENCE_SUFFIX="")
     r = sh(V + "/check", pid, "--tier", "quick", env=env)
     viol = [l for l in r.stdout.splitlines() if " rule=" in l]
     return r.returncode, viol
@@ -36,8 +39,6 @@ def run_check(pid):
 
 def main():
     flt = re.compile(sys.argv[1]) if len(sys.argv) > 1 else None
-    if not os.path.isdir(WT):
-        subprocess.check_call(["git", "-C", "/repo", "worktree", "add", "-q", "--detach", WT, "HEAD"])
     bk = "/tmp/evidence-backup-seeds"
     shutil.rmtree(bk, ignore_errors=True)
     shutil.copytree(V + "/evidence", bk)
@@ -52,24 +53,49 @@ def main():
             m = re.match(r"(C\d\d)-", name)
             if m:
                 jobs.append(("mutant " + name, "%s/selftest/mutants/%s" % (V, fn), [m.group(1)], True))
-    rows = []
-    for label, patch, checks, must_fire in jobs:
-        if flt and not flt.search(label):
-            continue
-        sh("git", "-C", WT, "checkout", "-q", "--", ".")
-        a = sh("git", "-C", WT, "apply", patch)
-        if a.returncode:
-            rows.append((label, ",".join(checks), "PATCH DOES NOT APPLY", ""))
-            continue
-        for c in checks:
-            t0 = time.time()
-            rc, viol = run_check(c)
-            fired = rc == 1 and bool(viol)
-            verdict = "ok" if fired == must_fire else "UNEXPECTED"
-            first = re.sub(r"^\S+ ", "", viol[0])[:150] if viol else ""
-            rows.append((label, c, ("reported (%d)" % len(viol)) if fired else "silent", verdict + (" | " + first if first else "")))
-            print(label, c, rows[-1][2], verdict, "%.0fs" % (time.time() - t0), flush=True)
-    sh("git", "-C", WT, "checkout", "-q", "--", ".")
+    import threading, queue
+    jobs = [j for j in jobs if not (flt and not flt.search(j[0]))]
+    # slow checks first so that the workers finish together
+    slow = {"C11": 0, "C15": 1, "C04": 2, "C02": 3}
+    jobs.sort(key=lambda j: min(slow.get(c, 9) for c in j[2]))
+    q = queue.Queue()
+    for j in jobs:
+        q.put(j)
+    rows, lock = [], threading.Lock()
+
+    def worker(k):
+        wt, cache = "%s-%d" % (WT, k), "%s-%d" % (CACHE, k)
+        if not os.path.isdir(wt):
+            subprocess.check_call(["git", "-C", "/repo", "worktree", "add", "-q", "--detach", wt, "HEAD"])
+        while True:
+            try:
+                label, patch, checks, must_fire = q.get_nowait()
+            except queue.Empty:
+                break
+            sh("git", "-C", wt, "checkout", "-q", "--", ".")
+            a = sh("git", "-C", wt, "apply", patch)
+            if a.returncode:
+                with lock:
+                    rows.append((label, ",".join(checks), "PATCH DOES NOT APPLY", ""))
+                continue
+            for c in checks:
+                t0 = time.time()
+                rc, viol = run_check(c, wt, cache)
+                fired = rc == 1 and bool(viol)
+                verdict = "ok" if fired == must_fire else "UNEXPECTED"
+                first = re.sub(r"^\S+ ", "", viol[0])[:150] if viol else ""
+                with lock:
+                    rows.append((label, c, ("reported (%d)" % len(viol)) if fired else "silent", verdict + (" | " + first if first else "")))
+                    print(label, c, rows[-1][2], verdict, "%.0fs" % (time.time() - t0), flush=True)
+        sh("git", "-C", wt, "checkout", "-q", "--", ".")
+        sh("git", "-C", "/repo", "worktree", "remove", "--force", wt)
+        shutil.rmtree(cache, ignore_errors=True)
+    ths = [threading.Thread(target=worker, args=(k,)) for k in range(WORKERS)]
+    for t in ths:
+        t.start()
+    for t in ths:
+        t.join()
+    rows.sort()
     shutil.rmtree(V + "/evidence", ignore_errors=True)
     shutil.copytree(bk, V + "/evidence")
     with open(V + "/selftest/RESULTS.md", "w") as fh:
